@@ -339,6 +339,11 @@ def sStylesXml : Str := [115, 116, 121, 108, 101, 115, 46, 120, 109, 108]
     both parts of every sub-document ("Object 1/styles.xml") -/
 def stylesPartOf (member : Str) : Bool := member = sStylesXml
 
+/-- `settings.xml`, `meta.xml`, `content.xml` -/
+def sSettingsXml : Str := [115, 101, 116, 116, 105, 110, 103, 115, 46, 120, 109, 108]
+def sMetaXml : Str := [109, 101, 116, 97, 46, 120, 109, 108]
+def sContentXml : Str := [99, 111, 110, 116, 101, 110, 116, 46, 120, 109, 108]
+
 /-- the document and its style index, as they travel from one part to the next -/
 structure Loaded where
   doc : Doc := {}
@@ -350,6 +355,15 @@ def loadPart (stylesPart : Bool) (l : Loaded) (evs : List Event) : Option Loaded
   match run { doc := l.doc, names := l.names, fix := l.fix, stylesPart := stylesPart } evs with
   | none => none
   | some st => let s := settle st; some ⟨s.doc, s.names, s.fix⟩
+
+/-- `__loadxmlparts`: the parts of one (sub-)document in the order settings.xml, meta.xml, content.xml, styles.xml
+    (the caller lists the ones that are in the manifest), each with a fresh parser, `_parsing` = the member name -/
+def loadParts (l : Loaded) : List (Str × List Event) → Option Loaded
+  | [] => some l
+  | (member, evs) :: r =>
+    match loadPart (stylesPartOf member) l evs with
+    | none => none
+    | some l' => loadParts l' r
 
 /-! ### event stream of a tree -/
 
@@ -371,6 +385,70 @@ def normEv : List Event → List Event
     | .chars t :: r' => .chars (s ++ t) :: r'
     | r' => if s.isEmpty then r' else .chars s :: r'
   | e :: r => e :: normEv r
+
+/-! ### the four parts `save` writes, as trees (contentxml / stylesxml / metaxml / settingsxml)
+
+  `usedC` / `usedS` are the automatic styles `_used_auto_styles` selects for content.xml / styles.xml (C10's subject:
+  a parameter here).  A section element is written with the attributes of the section object (none on a document
+  built through the API) — `secEl`.  scripts / font-face-decls / master-styles are written only `if hasChildNodes()`. -/
+
+def lGenerator : Str := [103, 101, 110, 101, 114, 97, 116, 111, 114]
+def lDocContent : Str := [100, 111, 99, 117, 109, 101, 110, 116, 45, 99, 111, 110, 116, 101, 110, 116]
+def lDocStyles : Str := [100, 111, 99, 117, 109, 101, 110, 116, 45, 115, 116, 121, 108, 101, 115]
+def lDocMeta : Str := [100, 111, 99, 117, 109, 101, 110, 116, 45, 109, 101, 116, 97]
+def lDocSettings : Str := [100, 111, 99, 117, 109, 101, 110, 116, 45, 115, 101, 116, 116, 105, 110, 103, 115]
+def lVersion : Str := [118, 101, 114, 115, 105, 111, 110]
+/-- `1.2` -/
+def v12 : Str := [49, 46, 50]
+
+def qGenerator : QName := ⟨METANS, lGenerator⟩
+def qDocContent : QName := ⟨OFFICENS, lDocContent⟩
+def qDocStyles : QName := ⟨OFFICENS, lDocStyles⟩
+def qDocMeta : QName := ⟨OFFICENS, lDocMeta⟩
+def qDocSettings : QName := ⟨OFFICENS, lDocSettings⟩
+/-- `office:version="1.2"` (DocumentContent() … are created with version="1.2") -/
+def verAttrs : List (QName × Str) := [(⟨OFFICENS, lVersion⟩, v12)]
+
+def isGen : Node → Bool
+  | .elem q _ _ => decide (q = qGenerator)
+  | _ => false
+
+def filterNG : Forest → Forest
+  | .nil => .nil
+  | .cons h t => if isGen h then filterNG t else .cons h (filterNG t)
+
+/-- `meta.Generator(text=TOOLSVERSION)` -/
+def genNode (tv : Str) : Node := .elem qGenerator [] (if tv.isEmpty then .nil else .cons (.text tv) .nil)
+
+/-- `__replaceGenerator`: every meta:generator child removed, a new one appended -/
+def normGen (tv : Str) (m : Forest) : Forest := appF (filterNG m) (.cons (genNode tv) .nil)
+
+def secEl (s : Sec) (f : Forest) : Node := .elem (qOfSec s) [] f
+
+/-- `if x.hasChildNodes(): x.toXml(1, xml)` -/
+def ifKids (s : Sec) (f : Forest) : Forest :=
+  match f with
+  | .nil => .nil
+  | f => .cons (secEl s f) .nil
+
+def contentTree (d : Doc) (usedC : Forest) : Node :=
+  .elem qDocContent verAttrs
+    (appF (ifKids .scripts d.scripts) (appF (ifKids .fontFace d.fontFace)
+      (.cons (secEl .autoStyles usedC) (.cons (secEl .body d.body) .nil))))
+
+def stylesTree (d : Doc) (usedS : Forest) : Node :=
+  .elem qDocStyles verAttrs
+    (appF (ifKids .fontFace d.fontFace)
+      (.cons (secEl .styles d.styles) (.cons (secEl .autoStyles usedS) (ifKids .master d.master))))
+
+def metaTree (tv : Str) (d : Doc) : Node :=
+  .elem qDocMeta verAttrs (.cons (secEl .metaS (normGen tv d.metaS)) .nil)
+
+def settingsTree (d : Doc) : Node :=
+  .elem qDocSettings verAttrs (.cons (secEl .settings d.settings) .nil)
+
+/-- `_saveXmlObjects`: settings.xml is written only `if settings.hasChildNodes()` -/
+def writesSettings (d : Doc) : Bool := match d.settings with | .nil => false | _ => true
 
 /-! ### `__fixXmlPart` -/
 
